@@ -51,6 +51,7 @@ deriving DecidableEq, Repr
 inductive Cond
   | cmp (l : Operand) (op : Op) (r : Operand)         -- ComparisonExpr with one operator among == != < <= > >=
   | call (recv : Operand) (meth : String) (arg : Operand)   -- <recv>.<meth>(<arg>): CallExpr, MemberExpr callee, one argument
+  | callKw (recv : Operand) (meth : String) (arg : Operand) -- <recv>.<meth>(kw=<arg>): the same `args` list for mypy
   | name (n : String)                                 -- NameExpr `n` or MemberExpr `<anything>.n`
   | opaque (k : Nat)                                  -- any other expression (its run-time value is an input)
   | not (c : Cond)
@@ -195,6 +196,8 @@ def considerSysPlatform (c : Cond) (platform : String) : TV :=
     if op = .eq ∨ op = .ne then fixedCmpStr platform op s else .unknown
   | .call .platform meth (.str s) =>
     if meth = "startswith" then ofBool (pyStartsWith platform s) else .unknown
+  | .callKw .platform meth (.str s) =>                       -- arg_kinds are not looked at
+    if meth = "startswith" then ofBool (pyStartsWith platform s) else .unknown
   | _ => .unknown
 
 def nameValue (n : String) (o : Options) : TV :=
@@ -236,6 +239,7 @@ def infer (o : Options) : Cond → TV
   | .and a b => andTable (infer o a) (infer o b)
   | .cmp l op r => leafValue (.cmp l op r) o
   | .call recv m a => leafValue (.call recv m a) o
+  | .callKw recv m a => leafValue (.callKw recv m a) o
   | .opaque _ => .unknown
 
 /-! ## run-time side -/
@@ -335,6 +339,7 @@ def eval (env : Env) : Cond → Option Bool
       else if meth = "endswith" then some (pyEndsWith s a)
       else none
     | _, _ => none
+  | .callKw _ _ _ => none                  -- TypeError: str.startswith() takes no keyword arguments
   | .name n => env.names n
   | .opaque k => env.opq k
   | .not c => (eval env c).map (!·)
